@@ -582,8 +582,8 @@ func c16CoqRound(r *c16RoundRec) string {
 	for _, op := range r.Queue {
 		qs = append(qs, fmt.Sprintf("(%s, %s, %s)", vh.MustCoqString(op.Op), vh.MustCoqString(op.Key), vh.CoqZ(int64(op.Delay/time.Millisecond))))
 	}
-	return fmt.Sprintf("(mkDRound (mkDCache %s %s %s) [%s] %s [%s])", vh.MustCoqString(r.Key), c16CoqObjGroups(r.CacheParents),
-		c16CoqObjGroups(r.CacheChildren), strings.Join(evs, ";\n  "), res, strings.Join(qs, "; "))
+	return fmt.Sprintf("(mkDRound (mkDCache %s %s %s) [%s] %s [%s] %s)", vh.MustCoqString(r.Key), c16CoqObjGroups(r.CacheParents),
+		c16CoqObjGroups(r.CacheChildren), strings.Join(evs, ";\n  "), res, strings.Join(qs, "; "), vh.MustCoqString(r.CacheMutated))
 }
 
 func c16CoqCase(c *c16CaseRec) string {
@@ -602,8 +602,10 @@ func TestVerif_C16(t *testing.T) {
 	}
 	// the same scenarios and records serve two properties: C16 (default) and the decorator leg of C06
 	prop, checkFn := "C16", "C16_check"
-	if os.Getenv("VERIF_PROP") == "C06d" {
-		prop, checkFn = "C06d", "C06d_check"
+	switch os.Getenv("VERIF_PROP") {
+	case "C06d", "C10d", "C17d":
+		prop = os.Getenv("VERIF_PROP")
+		checkFn = prop + "_check"
 	}
 	header := "From MC Require Import Check.Decorator_check.\nOpen Scope string_scope.\n"
 	w, err := vh.NewCaseWriter(env.OutDir, prop, header, 40)
@@ -674,6 +676,9 @@ func TestVerif_C16(t *testing.T) {
 		writes := 0
 		for _, r := range rec.Rounds {
 			w.Count("result-" + r.Result)
+			if r.CacheMutated != "" {
+				w.Count("cache-mutated-" + r.CacheMutated)
+			}
 			hooked := false
 			for _, e := range r.Events {
 				if e.API != nil {
